@@ -26,6 +26,22 @@ Theorem C20_mix_split_nonneg : forall n ins split,
 Proof. exact mix_split_nonneg_lemma. Qed.
 Print Assumptions C20_mix_split_nonneg.
 
+(* bottom outlet defined on ANOTHER property package (pos_i = Some j: chemical i of the feed's package is chemical j of
+   the outlet's): per chemical top + bottom = inlets; what the outlet held before is gone (every other entry is 0,
+   also when the outlet receives nothing); a share that has no place in the outlet's package is an error, not a loss *)
+Theorem C20_mix_split_other_package : forall n ins split m pos,
+  (forall v, In v ins -> length v = n) -> length split = n -> length pos = n -> pos_inj pos ->
+  (forall k j, nth_error pos k = Some (Some j) -> (j < m)%nat) ->
+  let o := mix_and_split_other n ins split m pos in
+  o_err o = None ->
+  (forall i, nthq (o_top o) i == nthq split i * colsum ins i) /\
+  (forall i j, nth_error pos i = Some (Some j) -> nthq (o_top o) i + nthq (o_bot o) j == colsum ins i) /\
+  (forall i, nth_error pos i = Some None -> nthq (o_top o) i == colsum ins i) /\
+  (forall j, (forall k, nth_error pos k <> Some (Some j)) -> nthq (o_bot o) j == 0) /\
+  length (o_bot o) = m.
+Proof. exact mix_split_other_lemma. Qed.
+Print Assumptions C20_mix_split_other_package.
+
 (* ------------------------------------------------------------------ handle_infeasible_flow_rates *)
 (* a normal return leaves every entry in [0, maxmol] *)
 Theorem C20_clip_range : forall mol maxmol strict,
@@ -60,7 +76,8 @@ Print Assumptions C20_clip_feasible_id.
 
 (* ------------------------------------------------------------------ adjust_moisture_content *)
 (* retentate + permeate is unchanged for every chemical and every outcome (normal return, clamp with
-   strict = False, InfeasibleRegion), for Stream and MultiStream arguments *)
+   strict = False, InfeasibleRegion), for Stream and MultiStream arguments, also when the two streams are on
+   packages of different size (n, n') that give the moisture chemical the same index *)
 Theorem C20_moisture_conserves : forall n n' mws R P w mc by_mass mwc strict,
   wf_strm n R -> wf_strm n' P -> (w < n)%nat -> (w < n')%nat ->
   (by_mass = true -> ~ nthq mws w == 0) ->
@@ -116,6 +133,17 @@ Theorem C20_mix_moisture_conserves : forall n mws ins split w mc by_mass mwc str
   forall i, nthq (total (m_ret m)) i + nthq (total (m_perm m)) i == colsum ins i.
 Proof. exact mix_moisture_conserves_lemma. Qed.
 Print Assumptions C20_mix_moisture_conserves.
+
+(* ... also with the permeate on a package that appends chemicals to the retentate's (reused outlets included) *)
+Theorem C20_mix_moisture_other_package_conserves : forall n mws ins split m pos w mc by_mass mwc strict,
+  (forall v, In v ins -> length v = n) -> length split = n -> length pos = n -> (n <= m)%nat ->
+  (forall i, (i < n)%nat -> nth_error pos i = Some (Some i)) -> (w < n)%nat ->
+  (by_mass = true -> ~ nthq mws w == 0) ->
+  let r := mix_and_split_with_moisture_other n mws ins split m pos w mc by_mass mwc strict in
+  m_err r <> Some EKey ->
+  forall i, nthq (total (m_ret r)) i + nthq (total (m_perm r)) i == colsum ins i.
+Proof. exact mix_moisture_other_conserves_lemma. Qed.
+Print Assumptions C20_mix_moisture_other_package_conserves.
 
 (* ------------------------------------------------------------------ partition *)
 (* top + bottom = feed on every normal return, for every solver output, K, forced chemicals and
@@ -232,6 +260,68 @@ Theorem C20_phase_fraction_agrees : forall pf feed top0 bot0 ids K topc botc str
   /\ snd (phase_fraction pf feed ids K topc botc strict) = p_warns (partition pf feed top0 bot0 ids K topc botc strict).
 Proof. exact phase_fraction_agrees_lemma. Qed.
 Print Assumptions C20_phase_fraction_agrees.
+
+(* ---- the in-repository part of solve_phase_fraction_Rashford_Rice (the numeric root finder is the oracle [root]) *)
+(* it returns 0, 1 or what the root finder returned *)
+Theorem C20_rr_solve_cases : forall root zs Ks za zb,
+  rr_solve root zs Ks za zb = 0 \/ rr_solve root zs Ks za zb = 1 \/ rr_solve root zs Ks za zb = root.
+Proof. exact rr_solve_cases. Qed.
+Print Assumptions C20_rr_solve_cases.
+
+(* the root finder decides whenever no exit on the range of K applies and the residual does not have the same strict
+   sign at both ends of the bracket *)
+Theorem C20_rr_solve_bracket : forall root zs Ks za zb,
+  (all_le Ks one_plus && qzerob za)%bool = false ->
+  (all_ge Ks one_minus && qzerob zb)%bool = false ->
+  let y0 := rr_objective (if qzerob za then 0 else x_lo) zs Ks za zb in
+  let y1 := rr_objective (if qzerob zb then 1 else x_hi) zs Ks za zb in
+  (y0 <= 0 <= y1 \/ y1 <= 0 <= y0) ->
+  rr_solve root zs Ks za zb = root.
+Proof. exact rr_solve_bracket_lemma. Qed.
+Print Assumptions C20_rr_solve_bracket.
+
+(* a chemical forced to the bottom switches off the exit "every K >= 1 => phi = 1", one forced to the top the exit
+   "every K <= 1 => phi = 0" *)
+Theorem C20_forced_bottom_disables_exit : forall Ks zb,
+  ~ zb == 0 -> (all_ge Ks one_minus && qzerob zb)%bool = false.
+Proof. exact forced_bottom_disables_exit. Qed.
+Print Assumptions C20_forced_bottom_disables_exit.
+Theorem C20_forced_top_disables_exit : forall Ks za,
+  ~ za == 0 -> (all_le Ks one_plus && qzerob za)%bool = false.
+Proof. exact forced_top_disables_exit. Qed.
+Print Assumptions C20_forced_top_disables_exit.
+
+(* and the exits are right where they fire: every K <= 1 and nothing forced to the top: the residual is >= 0 on (0,1)
+   (no top phase); every K >= 1 and nothing forced to the bottom: <= 0 (no bottom phase) *)
+Theorem C20_rr_exit0_sound : forall phi zs Ks za zb,
+  length zs = length Ks -> 0 < phi < 1 ->
+  Forall (fun z => 0 <= z) zs -> Forall (fun k => 0 <= k <= 1) Ks -> za == 0 -> 0 <= zb ->
+  0 <= rr_objective phi zs Ks za zb.
+Proof. exact rr_exit0_sound_lemma. Qed.
+Print Assumptions C20_rr_exit0_sound.
+Theorem C20_rr_exit1_sound : forall phi zs Ks za zb,
+  length zs = length Ks -> 0 < phi < 1 ->
+  Forall (fun z => 0 <= z) zs -> Forall (fun k => 1 <= k) Ks -> zb == 0 -> 0 <= za ->
+  rr_objective phi zs Ks za zb <= 0.
+Proof. exact rr_exit1_sound_lemma. Qed.
+Print Assumptions C20_rr_exit1_sound.
+
+(* partition driven by the repository's own wrapper around a root finder with the contract "an interior value it
+   returns is a root of the residual": an interior phase fraction is a root for exactly the arguments partition
+   passes, i.e. the hypothesis of C20_partition_K_root holds (Rachford-Rice path: more than two equilibrium
+   chemicals or a forced chemical with flow) *)
+Theorem C20_partition_real_root : forall rootf,
+  (forall zs Ks za zb, 0 < rootf zs Ks za zb < 1 -> rr_objective (rootf zs Ks za zb) zs Ks za zb == 0) ->
+  forall feed top0 bot0 ids K topc botc strict phi,
+  let r := partition (pf_real rootf) feed top0 bot0 ids K topc botc strict in
+  p_phi r = Ok phi -> 0 < phi < 1 ->
+  let Fa := forced_sum feed topc in
+  let Fb := forced_sum feed botc in
+  let F := qsum (gather feed ids) + (Fa + Fb) in
+  ((2 < length ids)%nat \/ ~ Fa == 0 \/ ~ Fb == 0) ->
+  rr_objective phi (vdivs (gather feed ids) F) K (Fa / F) (Fb / F) == 0.
+Proof. exact partition_real_root_lemma. Qed.
+Print Assumptions C20_partition_real_root.
 
 (* closed form for two components is the root of the residual; as_valid_fraction clamps into [0, 1] *)
 Theorem C20_rr2_root : forall z1 z2 K1 K2,
@@ -372,6 +462,29 @@ Example C20_ex_root_binary :
   compute_phase_fraction_2N (1 # 2) (1 # 2) 2 (1 # 2) == 1 # 2 /\
   binary_phase_fraction_2 (1 # 2) (1 # 2) 2 (1 # 2) = Ok (compute_phase_fraction_2N (1 # 2) (1 # 2) 2 (1 # 2)).
 Proof. qc. Qed.
+
+(* every K > 1 with a chemical forced to the bottom: the wrapper must not take the "phi = 1" exit; the residual is
+   negative at 0 and positive at the upper end, so the root finder decides (here its value 1/3 is handed through) *)
+Example C20_ex_forced_bottom_all_K_above_one :
+  let zs := [1 # 2; 1 # 4] in let Ks := [4; 2] in
+  rr_solve (1 # 3) zs Ks 0 (1 # 4) = 1 # 3 /\
+  (all_ge Ks one_minus && qzerob (1 # 4))%bool = false /\
+  rr_objective 0 zs Ks 0 (1 # 4) <= 0 /\ 0 <= rr_objective x_hi zs Ks 0 (1 # 4) /\
+  rr_solve (1 # 3) zs Ks 0 0 = 1.
+Proof. qc. Qed.
+
+(* reused bottom outlet on a reordered superset package that receives nothing: it ends up empty *)
+Example C20_ex_other_package :
+  let o := mix_and_split_other 3 [[0; 10; 2]] [1; 1; 1] 4 [Some 2; Some 0; Some 3]%nat in
+  o_err o = None /\ vapproxb (o_top o) [0; 10; 2] = true /\ vapproxb (o_bot o) [0; 0; 0; 0] = true /\
+  o_err (mix_and_split_other 3 [[0; 10; 2]] [1; 1; 1 # 2] 4 [Some 2; Some 0; None]%nat) = Some EKey /\
+  vapproxb (o_bot (mix_and_split_other 3 [[0; 10; 2]] [1; 1 # 2; 1 # 2] 4 [Some 2; Some 0; Some 3]%nat)) [5; 0; 0; 1] = true /\
+  pos_inj [Some 2; Some 0; Some 3]%nat.
+Proof.
+  qc. intros k1 k2 j A B.
+  destruct k1 as [|[|[|k1]]]; destruct k2 as [|[|[|k2]]]; simpl in *; try congruence;
+    try (destruct k1; discriminate); try (destruct k2; discriminate).
+Qed.
 
 (* clipping: negative K makes a bottom flow negative; strict raises, non-strict clips with a warning *)
 Example C20_ex_partition_infeasible :
